@@ -431,7 +431,7 @@ Proof.
   - cbn [fst]. eapply hc_same; [exact H|reflexivity|reflexivity|reflexivity|reflexivity].
   - destruct (is_idle c s); [|exact H]. destruct (id_lookup (s_ids s) i) as [ser|]; [|exact H].
     destruct (getjob (s_jobs s) ser) as [j|]; [|exact H].
-    destruct (j_done j && negb (done_pending ser (s_hub s))).
+    destruct (j_done j).
     + destruct (j_drop j && id_is (s_ids s) (j_id j) ser); [|exact H]. cbn [fst].
       eapply hc_same; [exact H|reflexivity|reflexivity|reflexivity|reflexivity].
     + cbn [fst]. eapply hc_frame; [exact H|reflexivity|reflexivity|apply djobs_refl|].
